@@ -167,6 +167,22 @@ func WindowFacts(repo string, w io.Writer) error {
 	}
 	fmt.Fprintln(w, "(* pkg/compact/downsample/downsample.go: currentWindow *)")
 	fmt.Fprintln(w, d)
+	// one-line decisions: the batch sizes of the two loops
+	for _, f := range []struct{ fn, coq, arg string }{
+		{"downsampleRawLoop", "raw_batch_size", "data"},
+		{"downsampleAggrLoop", "aggr_batch_size", "chks"},
+	} {
+		e, err := s.RHS(f.fn, "batchSize")
+		if err != nil {
+			return err
+		}
+		x, err := s.TranslateExpr(e, nil, map[string]string{"len": "len_of"})
+		if err != nil {
+			return err
+		}
+		fmt.Fprintf(w, "(* %s: batchSize := %s *)\n", f.fn, s.ExprString(e))
+		fmt.Fprintf(w, "Definition %s (len_%s numChunks : Z) : Z :=\n  let len_of := fun _ : Z => len_%s in let %s := 0 in\n  %s.\n\n", f.coq, f.arg, f.arg, f.arg, x)
+	}
 	fmt.Fprintf(w, "Definition ResLevel1 : Z := %d.\n", downsample.ResLevel1)
 	fmt.Fprintf(w, "Definition ResLevel2 : Z := %d.\n", downsample.ResLevel2)
 	return nil
